@@ -979,6 +979,15 @@ func runC16Edge(c *vh.Case) {
 		mu.Unlock()
 		return nil, nil, nil
 	})
+	// the same with a schema default: absent or null arguments stand for {}, which the default completes
+	var defSeen []int
+	mcp.AddTool(server, &mcp.Tool{Name: "optdef", InputSchema: json.RawMessage(`{"type":"object","properties":{"limit":{"type":"integer","default":3},"path":{"type":"string"}}}`)}, func(ctx context.Context, req *mcp.CallToolRequest, a c16EdgeIn) (*mcp.CallToolResult, any, error) {
+		mu.Lock()
+		invoked["optdef"]++
+		defSeen = append(defSeen, a.Limit)
+		mu.Unlock()
+		return nil, nil, nil
+	})
 	withDefault := r.Bool()
 	outSchema := map[string]any{"type": "object", "required": []any{"status", "count"}, "properties": map[string]any{
 		"status": map[string]any{"type": "string", "enum": []any{"ok", "failed"}}, "count": map[string]any{"type": "integer", "minimum": 1}}}
@@ -1010,8 +1019,11 @@ func runC16Edge(c *vh.Case) {
 		if r.Bool() {
 			// arguments of every JSON kind; only an object (or absent arguments) can be valid
 			var args any
-			kind := r.Choose("array", "string", "number", "bool", "object", "object-bad", "absent", "nested-array")
+			kind := r.Choose("array", "string", "number", "bool", "object", "object-bad", "absent", "nested-array", "null", "null")
+			tool := r.Choose("opt", "optdef")
 			switch kind {
+			case "null":
+				args = json.RawMessage("null")
 			case "array":
 				args = []any{1, 2, 3}
 			case "nested-array":
@@ -1029,20 +1041,33 @@ func runC16Edge(c *vh.Case) {
 			case "absent":
 				args = nil
 			}
-			calls = append(calls, map[string]any{"tool": "opt", "arguments_kind": kind, "arguments": args})
+			calls = append(calls, map[string]any{"tool": tool, "arguments_kind": kind, "arguments": args})
 			mu.Lock()
-			invoked["opt"] = 0
+			invoked[tool] = 0
+			defSeen = nil
 			mu.Unlock()
-			res, err := cs.CallTool(ctx, &mcp.CallToolParams{Name: "opt", Arguments: args})
+			res, err := cs.CallTool(ctx, &mcp.CallToolParams{Name: tool, Arguments: args})
 			mu.Lock()
-			n := invoked["opt"]
+			n := invoked[tool]
+			seenDef := append([]int(nil), defSeen...)
 			mu.Unlock()
 			valid := kind == "object" || kind == "absent"
+			if tool == "optdef" && n == 1 && (kind == "absent" || kind == "null") && seenDef[0] != 3 {
+				c.Violate("handler-input-differs", "tool optdef (limit defaults to 3) called with %s arguments: the handler saw limit=%d", kind, seenDef[0])
+			}
+			if kind == "null" {
+				// null arguments: a tool error without running the handler, or the same as absent arguments
+				if !(n == 0 && err == nil && res.IsError) && !(n == 1 && err == nil && !res.IsError) {
+					c.Violate("invalid-input-accepted", "tool %s called with \"arguments\": null: handler ran %d time(s), err %v, result %s", tool, n, err, vh.JSON(res))
+				}
+				accepted++
+				continue
+			}
 			switch {
 			case valid && (n != 1 || err != nil || res.IsError):
-				c.Violate("valid-input-rejected", "tool opt, arguments %s (%s): handler ran %d time(s), err %v result %s", vh.JSON(args), kind, n, err, vh.JSON(res))
+				c.Violate("valid-input-rejected", "tool %s, arguments %s (%s): handler ran %d time(s), err %v result %s", tool, vh.JSON(args), kind, n, err, vh.JSON(res))
 			case !valid && n != 0:
-				c.Violate("handler-saw-invalid-input", "tool opt declares an object input; arguments %s (%s) are not valid, yet the handler ran", vh.JSON(args), kind)
+				c.Violate("handler-saw-invalid-input", "tool %s declares an object input; arguments %s (%s) are not valid, yet the handler ran", tool, vh.JSON(args), kind)
 			case !valid && err == nil && !res.IsError:
 				c.Violate("invalid-input-accepted", "arguments %s (%s) produced a non-error result %s", vh.JSON(args), kind, vh.JSON(res))
 			}
